@@ -18,9 +18,9 @@ def build(tier, seed, exclude):
     g.raw(HELPERS)
     quick = tier == "quick"
     to = 110 if quick else 600
-    params = ", ".join(f"c{i}: int" for i in range(NS)) + ", k: int"
-    pre = [" and ".join(f"0 <= c{i} < 4" for i in range(NS)), "0 <= k <= 3"]
-    ch = "[" + ", ".join(f"T.real(c{i})" for i in range(NS)) + "]"
+    params = "sd: int" + ", k: int"
+    pre = [f"0 <= sd < {4 ** NS}", "0 <= k <= 3"]
+    ch = f"AP.S.decode(T.real(sd), {NS}, 4)"
     for shape in ("indep", "forkjoin"):
         g.cond(f"h_async_{shape}", params, pre, f"""
             kk = T.real(k)
